@@ -214,12 +214,19 @@ def warmup_sessions(ck, n_scen, forced=None):
         cfg = {'default_experiment': 'T', 'default_data_file': 't.data', 'runs': runs_level,
                'benchmark_suites': {'S': suite}, 'executors': {'E': {'path': '.', 'executable': 'exe'}},
                'experiments': {'T': {'suites': ['S'], 'executions': ['E']}}}
+        two_exec = (not forced) and idx % 5 == 4
+        if two_exec:
+            # another executor, listed FIRST with a warm-up of its own on its execution entry: settings of one
+            # execution must not carry over to the next; the measured run is executor E's
+            cfg['executors']['W'] = {'path': '.', 'executable': 'exeW'}
+            cfg['experiments']['T']['executions'] = [{'W': {'warmup': (w or 0) + 2}}, 'E']
         conf = drive.write_config(wd, cfg)
-        state = {'k': 0}
+        state = {'k': 0, 'kW': 0}
 
         def script(rec, vals=vals, state=state, extra=extra, style=styles.get(idx, 'repr')):
-            k = state['k']
-            state['k'] += 1
+            key = 'kW' if 'exeW' in str(rec['args']) else 'k'
+            k = state[key]
+            state[key] += 1
             if k >= len(vals):
                 return drive.Outcome(1, '')        # everything was measured already: the harness refuses
             crit = ['B: heap size: 4096kb\n', 'B gc: iterations=1 runtime: 250us\n', 'B: allocated: 12.5MB\n'][:extra]
@@ -234,6 +241,8 @@ def warmup_sessions(ck, n_scen, forced=None):
             def wrapped(self, runs, *a, **kw):
                 r = orig(self, runs, *a, **kw)
                 for run in runs:
+                    if run.benchmark.suite.executor.name != 'E':
+                        continue
                     target['s'] = run.statistics
                     target['inv'] = run.completed_invocations
                 return r
@@ -247,13 +256,15 @@ def warmup_sessions(ck, n_scen, forced=None):
             rbm.ReBench.execute_experiment = orig
         ck.impl_traces += 2
         inp = {'warmup': w, 'invocations': n_inv, 'iterations': its, 'values': vals, 'extra_criteria': extra,
-               'suite': suite, 'runs': runs_level, 'spelling': styles.get(idx, 'repr')}
+               'suite': suite, 'runs': runs_level, 'spelling': styles.get(idx, 'repr'),
+               'executions': cfg['experiments']['T']['executions']}
         ck.count('warmup:%s' % w)
         ck.count('iterations:%s' % ('<=7' if its <= 7 else '18-60'))
         ck.count('extra-criteria:%d' % extra)
         ck.count('spelling:%s' % styles.get(idx, 'repr'))
         ck.count('warmup-levels:%s' % (['one', 'one', 'benchmark-over-runs', 'benchmark-over-suite'][shape] if w is not None else 'none'))
         ck.count('text-in-run-columns:%s' % ('yes' if (not forced and idx % 3 == 1) else 'no'))
+        ck.count('executions:%s' % ('two (other warm-up first)' if two_exec else 'one'))
         ck.case(nontrivial_key=('w', w, n_inv, its, hash(str(vals))) if (w or 0) > 0 else None,
                 sample={'warmup': w, 'values': vals} if idx < 2 else None)
         if len(r2.starts) != 0:
